@@ -135,5 +135,9 @@ class KDPseudoLabelWrapper(KDWrapper):
         if self.pseudo_labels.ndim == 1:
             return self.pseudo_labels.tolist()
         if self.pseudo_labels.ndim == 2:
-            return self.pseudo_labels.argmax(dim=1).tolist()
+            if self.threshold is None:
+                return self.pseudo_labels.argmax(dim=1).tolist()
+            # same rule as _getitem_class: below the confidence threshold a sample is unlabeled (-1)
+            confidences, argmax = self.pseudo_labels.softmax(dim=1).max(dim=1)
+            return torch.where(confidences > self.threshold, argmax, torch.full_like(argmax, -1)).tolist()
         raise NotImplementedError
